@@ -8,5 +8,5 @@ Extraction "c10.ml"
   Model.Collect.collect_v Model.Collect.orig Model.Collect.fixed Model.Collect.collect
   Model.Collect.frame_info Model.Collect.frame_pdus Model.Collect.enc_frame Model.Collect.receive
   Model.Collect.ldl_sendto Model.Collect.dlc_send Model.Collect.llc_clamp_miu
-  Model.Collect.plen Model.Collect.hsize.
+  Model.Collect.plen Model.Collect.hsize Model.Collect.learn_miu Model.Collect.learn_conn_miu.
 Cd "../../coq".
